@@ -55,6 +55,25 @@ type m3State struct {
 	armed     int64 // number of computations of the panicking resolver that still panic (-1 = always)
 	entries   int64
 	panics    int64
+
+	single *Row // one object handed out by every `single` resolver (same source for the executor's cache)
+}
+
+type m3CacheKey struct{ name string }
+
+// load is the usual thunder idiom: a fetch shared by several resolvers of one
+// request through the rerunner's reactive cache. Under placement
+// cache_shared* the fetch itself panics inside the cache's compute function.
+func (st *m3State) load(ctx context.Context, where string) (int64, error) {
+	v, err := reactive.Cache(ctx, m3CacheKey{"shared"}, func(ctx context.Context) (interface{}, error) {
+		v := st.dep(ctx)
+		st.maybePanic(where)
+		return v, nil
+	})
+	if err != nil {
+		return 0, err
+	}
+	return v.(int64), nil
 }
 
 func (st *m3State) dep(ctx context.Context) int64 {
@@ -127,6 +146,9 @@ func buildM3Schema(st *m3State) *graphql.Schema {
 	q.FieldFunc("boom", func(ctx context.Context) string { st.dep(ctx); st.maybePanic("plain_top"); return "ok" })
 	q.FieldFunc("boomExpensive", func(ctx context.Context) string { st.dep(ctx); st.maybePanic("expensive_top"); return "ok" }, schemabuilder.Expensive)
 	q.FieldFunc("holder", func() *Holder { return &Holder{} })
+	q.FieldFunc("cachedA", func(ctx context.Context) (int64, error) { return st.load(ctx, "cache_shared") })
+	q.FieldFunc("cachedB", func(ctx context.Context) (int64, error) { return st.load(ctx, "cache_shared") })
+	q.FieldFunc("single", func(ctx context.Context) *Row { st.dep(ctx); return st.single })
 	q.FieldFunc("uni", func(ctx context.Context) []*RowOrOther {
 		v := st.dep(ctx)
 		return []*RowOrOther{{Row: &Row{Id: 1, V: v}}, {Other: &Other{Name: "o"}}, {Row: &Row{Id: 2, V: v}}}
@@ -134,6 +156,8 @@ func buildM3Schema(st *m3State) *graphql.Schema {
 	h := s.Object("Holder", Holder{})
 	h.FieldFunc("boom", func(ctx context.Context) string { st.dep(ctx); st.maybePanic("plain_nested"); return "ok" })
 	h.FieldFunc("boomExpensive", func(ctx context.Context) string { st.dep(ctx); st.maybePanic("expensive_nested"); return "ok" }, schemabuilder.Expensive)
+	h.FieldFunc("cached", func(ctx context.Context) (int64, error) { return st.load(ctx, "cache_shared_aliases") })
+	h.FieldFunc("cachedExpensive", func(ctx context.Context) (int64, error) { return st.load(ctx, "cache_shared_expensive") }, schemabuilder.Expensive)
 	row := s.Object("Row", Row{})
 	row.Key("id")
 	row.BatchFieldFunc("boomBatch", func(ctx context.Context, in map[batch.Index]*Row) (map[batch.Index]string, error) {
@@ -151,6 +175,14 @@ func buildM3Schema(st *m3State) *graphql.Schema {
 		}
 		return "ok"
 	})
+	// an Expensive field reached twice for one source object through one
+	// *Selection (a named fragment spread under two aliases of `single`): both
+	// uses share the executor's cache key (field, source, selection)
+	row.FieldFunc("boomX", func(ctx context.Context, r *Row) string {
+		st.dep(ctx)
+		st.maybePanic("expensive_same_key")
+		return "ok"
+	}, schemabuilder.Expensive)
 	s.Object("Other", Other{})
 	m := s.Mutation()
 	m.FieldFunc("boomMut", func() bool { st.maybePanic("mutation"); return true })
@@ -247,7 +279,8 @@ type m3Scenario struct {
 	When      string // initial | rerun
 }
 
-var m3Placements = []string{"plain_top", "plain_nested", "expensive_top", "expensive_nested", "batch_nested", "list_element", "union_member", "mutation"}
+var m3Placements = []string{"plain_top", "plain_nested", "expensive_top", "expensive_nested", "batch_nested", "list_element", "union_member", "mutation",
+	"cache_shared", "cache_shared_aliases", "cache_shared_expensive", "expensive_same_key"}
 var m3Kinds = []string{"string", "error", "runtime_nil", "runtime_index", "custom", "nil", "client_error"}
 var m3Orders = []string{"panic_last", "panic_first", "panic_between"}
 
@@ -269,6 +302,14 @@ func m3Query(placement string) string {
 		return `{ counter uni { ... on Row { id boomAt } ... on Other { name } } }`
 	case "mutation":
 		return `mutation { boomMut }`
+	case "cache_shared": // two resolvers of one request share a fetch that panics inside reactive.Cache
+		return `{ counter cachedA cachedB }`
+	case "cache_shared_aliases":
+		return `{ counter a: holder { cached } b: holder { cached } c: holder { x: cached y: cached } }`
+	case "cache_shared_expensive":
+		return `{ counter a: holder { cachedExpensive } b: holder { cachedExpensive } }`
+	case "expensive_same_key":
+		return `{ counter a: single { ...G } b: single { ...G } } fragment G on Row { boomX }`
 	}
 	return `{ counter }`
 }
@@ -299,6 +340,15 @@ func m3Expected(placement string, v int64) interface{} {
 	case "union_member":
 		return map[string]interface{}{"counter": fv, "uni": []interface{}{
 			map[string]interface{}{"id": 1.0, "boomAt": "ok"}, map[string]interface{}{"name": "o"}, map[string]interface{}{"id": 2.0, "boomAt": "ok"}}}
+	case "cache_shared":
+		return map[string]interface{}{"counter": fv, "cachedA": fv, "cachedB": fv}
+	case "cache_shared_aliases":
+		return map[string]interface{}{"counter": fv, "a": map[string]interface{}{"cached": fv}, "b": map[string]interface{}{"cached": fv},
+			"c": map[string]interface{}{"x": fv, "y": fv}}
+	case "cache_shared_expensive":
+		return map[string]interface{}{"counter": fv, "a": map[string]interface{}{"cachedExpensive": fv}, "b": map[string]interface{}{"cachedExpensive": fv}}
+	case "expensive_same_key":
+		return map[string]interface{}{"counter": fv, "a": map[string]interface{}{"boomX": "ok"}, "b": map[string]interface{}{"boomX": "ok"}}
 	}
 	return nil
 }
@@ -343,7 +393,7 @@ func runM3Scenario(run *vlib.Run, caseIdx int, sc m3Scenario) {
 	run.Count("m3:panic_kind:"+sc.Kind, 1)
 	run.Count("m3:when:"+sc.When, 1)
 
-	st := &m3State{res: reactive.NewResource(), kind: sc.Kind, placement: sc.Placement, version: 1}
+	st := &m3State{res: reactive.NewResource(), kind: sc.Kind, placement: sc.Placement, version: 1, single: &Row{Id: 7}}
 	if sc.When == "initial" {
 		st.armed = -1
 	}
